@@ -510,7 +510,9 @@ func (c *Check) custodyBeforeRecord(rule string) {
 							last = ev
 						}
 					}
-					own := last != nil && last.Fact.Neg && last.Fact.T.Op == "ok" && strings.Contains(last.Fact.T.String(), "SendCoinsFromAccountToModule")
+					// (the failure of the transfer itself, or of the helper that performs it, is not "after" it)
+					own := last != nil && last.Fact.Neg && last.Fact.T.Op == "ok" && len(last.Fact.T.A) == 1 &&
+						(strings.Contains(last.Fact.T.String(), "SendCoinsFromAccountToModule") || (pa.Events[iIn].Result != nil && stripConv(last.Fact.T.A[0]).Eq(stripConv(pa.Events[iIn].Result))))
 					if !own {
 						late, latePos = true, pa.RetPos
 					}
